@@ -93,6 +93,16 @@ class IncompatibleRunnerError(Exception):
         super().__init__(message)
 
 
+def describe_exception(exc: BaseException | None) -> str:
+    """``str(exc)`` that cannot fail: a user exception with a broken ``__str__`` must not replace itself."""
+    if exc is None:
+        return ""
+    try:
+        return str(exc)
+    except Exception:  # noqa: BLE001 - whatever the user's __str__ does
+        return f"<{type(exc).__name__} (unprintable)>"
+
+
 class ExecutionError(Exception):
     """Wraps an exception that occurred during graph execution.
 
@@ -105,5 +115,5 @@ class ExecutionError(Exception):
 
     def __init__(self, cause: BaseException, partial_state: GraphState) -> None:
         self.partial_state = partial_state
-        super().__init__(str(cause))
+        super().__init__(describe_exception(cause))
         self.__cause__ = cause
